@@ -52,6 +52,7 @@ type Action struct {
 	Cop string `json:"cop,omitempty"`
 	Out string `json:"out,omitempty"`
 	Sel int    `json:"sel,omitempty"`
+	Ctx int    `json:"ctx,omitempty"` // 1: the load call is made with an already cancelled context (alone on its goroutine it behaves like any other call: the loader it starts is handed that context and the harness's loaders ignore it)
 }
 
 // Script is a whole case.
